@@ -1005,33 +1005,32 @@ func (tr *Tr) relateOpaque(sd *SpecDef, fn string, args []string, atom string, i
 		return
 	}
 	isHeap := func(i int) bool { return strings.HasPrefix(sorts[i], "(Array") }
-	for _, old := range insts {
-		if len(old.args) != len(args) || old.atom == atom {
-			continue
-		}
+	// relate(older, newer): if every heap argument of newer extends the corresponding one of older by allocation only,
+	// the older application implies (equals) the newer one
+	relate := func(oargs0, nargs0 []string) {
 		related, differs := true, false
 		var topConds []string
-		for i := range args {
+		for i := range nargs0 {
 			if !isHeap(i) {
-				if strings.HasPrefix(args[i], "|top") && strings.HasPrefix(old.args[i], "|top") && args[i] != old.args[i] {
+				if strings.HasPrefix(nargs0[i], "|top") && strings.HasPrefix(oargs0[i], "|top") && nargs0[i] != oargs0[i] {
 					// allocation counters: the stability lemma is proved for any later counter value
-					topConds = append(topConds, sLe(old.args[i], args[i]))
+					topConds = append(topConds, sLe(oargs0[i], nargs0[i]))
 					differs = true
 				}
 				continue
 			}
-			if args[i] == old.args[i] {
+			if nargs0[i] == oargs0[i] {
 				continue
 			}
 			differs = true
-			// is old.args[i] an ancestor of args[i] in the allocation-extension lineage?
-			cur, ok := args[i], false
+			// is oargs0[i] an ancestor of nargs0[i] in the allocation-extension lineage?
+			cur, ok := nargs0[i], false
 			for hops := 0; hops < 200; hops++ {
 				p, has := tr.allocParent[cur]
 				if !has {
 					break
 				}
-				if p == old.args[i] {
+				if p == oargs0[i] {
 					ok = true
 					break
 				}
@@ -1043,14 +1042,14 @@ func (tr *Tr) relateOpaque(sd *SpecDef, fn string, args []string, atom string, i
 			}
 		}
 		if !related || !differs {
-			continue
+			return
 		}
 		// the relation holds for all values of the scalar arguments: quantify over them (except allocation counters)
 		var binders, nargs, oargs []string
-		for i := range args {
-			if isHeap(i) || strings.HasPrefix(args[i], "|top") {
-				nargs = append(nargs, args[i])
-				oargs = append(oargs, old.args[i])
+		for i := range nargs0 {
+			if isHeap(i) || strings.HasPrefix(nargs0[i], "|top") {
+				nargs = append(nargs, nargs0[i])
+				oargs = append(oargs, oargs0[i])
 				continue
 			}
 			v := fmt.Sprintf("|s?%d|", i)
@@ -1060,7 +1059,7 @@ func (tr *Tr) relateOpaque(sd *SpecDef, fn string, args []string, atom string, i
 		}
 		key := "stab|" + fn + "|" + strings.Join(nargs, " ") + "|" + strings.Join(oargs, " ")
 		if tr.typeFactDone[key] {
-			continue
+			return
 		}
 		tr.typeFactDone[key] = true
 		na := "(" + fn + " " + strings.Join(nargs, " ") + ")"
@@ -1073,11 +1072,18 @@ func (tr *Tr) relateOpaque(sd *SpecDef, fn string, args []string, atom string, i
 		}
 		if len(binders) > 0 {
 			tr.fresh++
-			body = fmt.Sprintf("(forall (%s) (! %s :pattern (%s) :qid ST%d))", strings.Join(binders, " "), body, na, tr.fresh)
+			body = fmt.Sprintf("(forall (%s) (! %s :pattern (%s) :pattern (%s) :qid ST%d))", strings.Join(binders, " "), body, na, oa, tr.fresh)
 		}
 		tr.sc.fact(body)
 		tr.stableUsed[sd.Name] = true
 		tr.assumptions["stability of opaque spec "+sd.Name+" under allocation (lemma stable."+sd.Name+", proved by the engine)"] = true
+	}
+	for _, old := range insts {
+		if len(old.args) != len(args) || old.atom == atom {
+			continue
+		}
+		relate(old.args, args)
+		relate(args, old.args) // the new application may speak about an older state than a known one (old(...) in a postcondition)
 	}
 	register()
 }
